@@ -32,4 +32,14 @@ AllowedVerdicts(sigs, addrs) ==
     IF Verify(sigs, addrs)
     THEN IF DistinctSigners(sigs) THEN {TRUE} ELSE {TRUE, FALSE}
     ELSE {FALSE}
+
+\* Linear-time forms for long lists (trace validation of lists of up to 255 entries).  MC_SigVerify checks
+\* (lemma C06_FastForms) that they coincide with the defining forms above.
+AscAdj(sigs) == \A i \in 1..Len(sigs) : i < Len(sigs) => sigs[i].idx < sigs[i + 1].idx
+DistinctFast(sigs) == Cardinality({sigs[i].signer : i \in 1..Len(sigs)}) = Len(sigs)
+VerifyFast(sigs, addrs) == InRange(sigs, addrs) /\ AscAdj(sigs) /\ Positional(sigs, addrs)
+AllowedFast(sigs, addrs) ==
+    IF VerifyFast(sigs, addrs)
+    THEN IF DistinctFast(sigs) THEN {TRUE} ELSE {TRUE, FALSE}
+    ELSE {FALSE}
 =============================================================================
